@@ -9,6 +9,7 @@ import RsMatterVerif.Lemmas.CodecCheckIn
 import RsMatterVerif.Lemmas.CodecBleAdv
 import RsMatterVerif.Lemmas.CodecDerRead -- D16d
 import RsMatterVerif.Lemmas.CodecCmsCd -- D16d
+import RsMatterVerif.Lemmas.CodecCmsRound -- D16d
 /-!
 # C17 — headers, onboarding payloads and discovery records decode what was encoded
 
@@ -437,12 +438,19 @@ example : (match Codec.Der.cmsParse (Codec.Der.encCms [0x15, 0x18] (List.replica
         c.sig == List.replicate 31 0 ++ [5] ++ List.replicate 31 0 ++ [6]
     | .error _ => false) = true := by decide
 
-/-- the full round-trip statement for the CMS envelope (NOT proved; the differential stream `cd` compares the
-model with `CmsSignedData::parse` on every `cms` op, and the oracle checks the round trip on the implementation) -/
-def cms_parse_encode_full : Prop :=
-  ∀ (content kid r s : List Nat), kid.length = 20 → Codec.Der.Canon 32 r → Codec.Der.Canon 32 s →
-    (∀ b ∈ content ++ kid, b < 256) → (Codec.Der.encCms content kid r s).length ≤ Codec.Der.MAX_LEN →
-    ∃ c, Codec.Der.cmsParse (Codec.Der.encCms content kid r s) = .ok c ∧ c.kid = kid ∧ c.cd = content ∧
-      c.sig = Codec.Der.padLeft 32 r ++ Codec.Der.padLeft 32 s
+open Codec.Der in
+/-- **CMS round trip**: `CmsSignedData::parse` of the Matter CD envelope (RFC 5652 profile of `cd.rs`) built by
+the model encoder from a CD content, a 20-byte signer key identifier and a signature `(r, s)` (minimal magnitudes of
+at most 32 bytes) returns exactly the key identifier, the content and `pad32 r ‖ pad32 s`. The content bytes are
+arbitrary (any TLV, any length up to `Length::MAX`). -/
+theorem cms_parse_encode (content kid r s : List Nat) (hk : kid.length = 20) (hr : Canon 32 r) (hs : Canon 32 s)
+    (hmax : (encCms content kid r s).length ≤ MAX_LEN) :
+    ∃ c, cmsParse (encCms content kid r s) = .ok c ∧ c.kid = kid ∧ c.cd = content ∧
+      c.sig = padLeft 32 r ++ padLeft 32 s :=
+  cmsParse_encCms hk hr hs hmax
+set_option maxRecDepth 100000 in
+example : (List.replicate 20 7).length = 20 ∧ Codec.Der.Canon 32 [5] ∧
+    (Codec.Der.encCms [0x15, 0x18] (List.replicate 20 7) [5] [6]).length ≤ Codec.Der.MAX_LEN :=
+  ⟨by decide, ⟨by decide, by decide, by decide⟩, by decide⟩
 
 end C17
